@@ -868,3 +868,13 @@ func QuiesceWithin(h time.Duration) {
 
 // NowRaw reads the virtual clock from scheduler context (timer delivery).
 func (r *Run) NowRaw() time.Time { return r.now }
+
+// ---- deterministic step counter (function entries of instrumented packages) ----
+
+var ticks uint64
+
+// Tick is inserted by the rewriter at function entries of selected packages.
+func Tick() { ticks++ }
+
+// Ticks returns the number of function entries counted so far.
+func Ticks() uint64 { return ticks }
